@@ -787,8 +787,9 @@ class _Roles:
     """Flow-insensitive roles of the locals of one function (what part of the index pools a name holds).  Only
     definite roles are recorded: a name with two different roles has none."""
 
-    def __init__(self, tree: Tree, fn: FuncInfo, params: dict[str, str]):
+    def __init__(self, tree: Tree, fn: FuncInfo, params: dict[str, str], seeds: dict[str, str] | None = None):
         self.tree, self.fn = tree, fn
+        self.seeds = seeds if seeds is not None else {"self.indices": M_PAIRS, "self.args[1:]": M_PAIRS}
         self.env: dict[str, str | None] = dict(params)
         self.conflict: set[str] = set()
         for _ in range(4):
@@ -851,8 +852,8 @@ class _Roles:
         if isinstance(e, ast.Name):
             return self.env.get(e.id)
         text = unparse(e)
-        if text in {"self.indices", "self.args[1:]"}:
-            return M_PAIRS
+        if text in self.seeds:
+            return self.seeds[text]
         if isinstance(e, ast.Subscript):
             base = self.role(e.value)
             if isinstance(e.slice, ast.Slice):
@@ -934,24 +935,15 @@ def _harmless_use(node: ast.AST) -> bool:
     return False
 
 
-def check_multiplicity(ctx: Check, tree: Tree) -> None:
-    """Along evaluate / cleanup / __new__ / doit and the package functions they reach, the values of a pool are never
-    collapsed to the distinct ones: a set / dict keyed by pool values may serve as a memo (lookup, membership), but
-    nothing may iterate, count or return it - the sum runs over the pool as listed (duplicates included)."""
-    cls = tree.cls(POOLSUM)
-    graph = tree.call_graph()
-    work: list[tuple[FuncInfo, dict[str, str]]] = []
-    for name in ("__new__", "evaluate", "cleanup", "doit"):
-        m = cls.methods.get(name)
-        if m is None:
-            continue
-        params = {}
-        if name == "__new__" and m.node.args.vararg is not None:
-            params[m.node.args.vararg.arg] = M_PAIRS
-        work.append((m, params))
+def multiset_scan(tree: Tree, work: list[tuple[FuncInfo, dict[str, str]]], seeds: dict[str, str] | None, follow_prefix: str | None):
+    """Shared core of R-MULTISET (C18) and R-OPERANDS (C08).  Returns (per function: findings, counting?), the functions
+    read and the number of names that hold a tracked sequence / its elements."""
+    from ..loader import parent
+
     seen: dict[str, dict[str, str]] = {}
-    analysed = 0
-    pool_names = 0
+    results: list[tuple[FuncInfo, list[tuple[ast.AST, str]], bool]] = []
+    tracked_names = 0
+    work = list(work)
     while work:
         fn, params = work.pop()
         if fn.qual in seen and seen[fn.qual] == params:
@@ -959,14 +951,11 @@ def check_multiplicity(ctx: Check, tree: Tree) -> None:
         if fn.qual in seen:  # called with different roles: keep only the agreeing ones
             params = {k: v for k, v in params.items() if seen[fn.qual].get(k, v) == v}
         seen[fn.qual] = params
-        roles = _Roles(tree, fn, params)
-        analysed += 1
-        pool_names += sum(1 for r in roles.env.values() if r in {M_POOL, M_POOLS, M_PAIRS, M_MAP, M_VALUE})
+        roles = _Roles(tree, fn, params, seeds)
+        tracked_names += sum(1 for r in roles.env.values() if r in {M_POOL, M_POOLS, M_PAIRS, M_MAP, M_VALUE})
         counting = any(isinstance(n, ast.Call) and ((tree.callee(n, fn) or unparse(n.func)) in _COUNTING or (isinstance(n.func, ast.Attribute) and n.func.attr == "count")) for n in walk_function(fn.node, nested=False))
         findings: list[tuple[ast.AST, str]] = []
         named: dict[str, tuple[ast.AST, str]] = {}
-        from ..loader import parent
-
         for node, text in _dedup_sites(tree, fn, roles):
             p = parent(node)
             if isinstance(p, ast.Assign) and len(p.targets) == 1 and isinstance(p.targets[0], ast.Name) and p.value is node:
@@ -974,19 +963,13 @@ def check_multiplicity(ctx: Check, tree: Tree) -> None:
             elif not _harmless_use(node):
                 findings.append((node, text + " and the result is used as the sequence of values"))
         for nm, st in _keyed_containers(fn, roles).items():
-            named.setdefault(nm, (st, f"`{nm}` is filled under the values of a pool as key (`{unparse(st)[:50]}`)"))
+            named.setdefault(nm, (st, f"`{nm}` is filled under the elements of the sequence as key (`{unparse(st)[:50]}`)"))
         for nm, (node, text) in named.items():
             for use in walk_function(fn.node, nested=False):
                 if isinstance(use, ast.Name) and use.id == nm and isinstance(use.ctx, ast.Load) and not _harmless_use(use):
-                    from ..loader import parent as _p
-
-                    findings.append((use, f"{text}; `{unparse(_p(use) or use)[:60]}` then reads it as a collection - repeated pool values count once"))
+                    findings.append((use, f"{text}; `{unparse(parent(use) or use)[:60]}` then reads it as a collection - repeated elements count once"))
                     break
-        key = f"{fn.qual}::multiset"
-        if findings and counting:
-            raise AnalysisError(f"{fn.qual}: pool values are collapsed to the distinct ones and counted - cannot decide whether the multiplicities are restored")
-        ctx.verdict(not findings, "R-MULTISET", key, tree.loc(findings[0][0] if findings else fn.node),
-                    f"{fn.qual}: the values of an index pool are never collapsed to the distinct ones", [t for _, t in findings] or None)
+        results.append((fn, findings, counting))
         # follow calls into the package with the roles of the arguments
         for call, callee in tree.calls_in(fn, nested=False):
             if not callee or callee not in tree.funcs:
@@ -1004,11 +987,34 @@ def check_multiplicity(ctx: Check, tree: Tree) -> None:
                 r = roles.role(kw.value)
                 if kw.arg and r:
                     bound[kw.arg] = r
-            if bound or callee.startswith(POOLSUM + "."):
+            if bound or (follow_prefix is not None and callee.startswith(follow_prefix)):
                 work.append((target, bound))
-    ctx.info("R-MULTISET", tree.loc(cls.node), f"read {analysed} functions with {pool_names} names that hold pools / pool values: {sorted(seen)}")
-    if analysed < 3 or pool_names < 2:
-        raise AnalysisError(f"R-MULTISET: only {analysed} functions / {pool_names} pool-holding names read (evaluate, cleanup, __new__ confirmed)")
+    return results, sorted(seen), tracked_names
+
+
+def check_multiplicity(ctx: Check, tree: Tree) -> None:
+    """Along evaluate / cleanup / __new__ / doit and the package functions they reach, the values of a pool are never
+    collapsed to the distinct ones: a set / dict keyed by pool values may serve as a memo (lookup, membership), but
+    nothing may iterate, count or return it - the sum runs over the pool as listed (duplicates included)."""
+    cls = tree.cls(POOLSUM)
+    work: list[tuple[FuncInfo, dict[str, str]]] = []
+    for name in ("__new__", "evaluate", "cleanup", "doit"):
+        m = cls.methods.get(name)
+        if m is None:
+            continue
+        params = {}
+        if name == "__new__" and m.node.args.vararg is not None:
+            params[m.node.args.vararg.arg] = M_PAIRS
+        work.append((m, params))
+    results, seen, pool_names = multiset_scan(tree, work, None, POOLSUM + ".")
+    for fn, findings, counting in results:
+        if findings and counting:
+            raise AnalysisError(f"{fn.qual}: pool values are collapsed to the distinct ones and counted - cannot decide whether the multiplicities are restored")
+        ctx.verdict(not findings, "R-MULTISET", f"{fn.qual}::multiset", tree.loc(findings[0][0] if findings else fn.node),
+                    f"{fn.qual}: the values of an index pool are never collapsed to the distinct ones", [t for _, t in findings] or None)
+    ctx.info("R-MULTISET", tree.loc(cls.node), f"read {len(seen)} functions with {pool_names} names that hold pools / pool values: {seen}")
+    if len(seen) < 3 or pool_names < 2:
+        raise AnalysisError(f"R-MULTISET: only {len(seen)} functions / {pool_names} pool-holding names read (evaluate, cleanup, __new__ confirmed)")
 
 
 def run(ctx: Check, tree: Tree) -> None:
